@@ -570,11 +570,13 @@ type c14Env struct {
 	sessU   []uuid.UUID
 	sspecU  []uuid.UUID
 	cspecU  []uuid.UUID
-	names   []string // record / record-spec names, ids 1..n
-	denoms  []string // id 0 = usd
+	names   []string         // record / record-spec names, ids 1..n
+	denoms  []string         // id 0 = usd
 	uuidID  map[string]int64 // per kind prefix + uuid bytes
 	nameID  map[string]int64
 	signers []string
+	uris    []string // object store locator URIs, ids 1..n (id 0 = a URI checkValidURI rejects)
+	hasAcct map[int64]bool
 }
 
 type c14Scope struct {
@@ -593,17 +595,20 @@ type c14CSpec struct {
 }
 type c14RSpec struct{ cspec, name int64 }
 type c14Nav struct{ scope, denom, price int64 }
+type c14Loc struct{ acct, uri int64 }
 
 type c14Obs struct {
-	ok     bool
-	scopes []c14Scope
-	sess   []c14Sess
-	recs   []c14Rec
-	sspecs []c14SSpec
-	cspecs []c14CSpec
-	rspecs []c14RSpec
-	navs   []c14Nav
+	ok                                            bool
+	scopes                                        []c14Scope
+	sess                                          []c14Sess
+	recs                                          []c14Rec
+	sspecs                                        []c14SSpec
+	cspecs                                        []c14CSpec
+	rspecs                                        []c14RSpec
+	navs                                          []c14Nav
 	lAS, lSS, lASP, lCS, lAC, lSess, lRec, lRSpec [][]int64
+	locs                                          []c14Loc
+	lLocSc                                        []string // per scope: GetOSLocatorByScope as a Coq term
 }
 
 func (e *c14Env) uid(kind string, b []byte) int64 {
@@ -764,7 +769,9 @@ func (e *c14Env) observe(ctx sdk.Context, ok bool) c14Obs {
 		o.rspecs = append(o.rspecs, sp)
 		return false
 	}))
-	sort.Slice(o.rspecs, func(i, j int) bool { return less2(o.rspecs[i].cspec, o.rspecs[i].name, o.rspecs[j].cspec, o.rspecs[j].name) })
+	sort.Slice(o.rspecs, func(i, j int) bool {
+		return less2(o.rspecs[i].cspec, o.rspecs[i].name, o.rspecs[j].cspec, o.rspecs[j].name)
+	})
 	for i := range e.scopeU {
 		id := int64(i + 1)
 		must(k.IterateNetAssetValues(ctx, e.scopeAddr(id), func(n mdtypes.NetAssetValue) bool {
@@ -774,16 +781,21 @@ func (e *c14Env) observe(ctx sdk.Context, ok bool) c14Obs {
 	}
 	sort.Slice(o.navs, func(i, j int) bool { return less2(o.navs[i].scope, o.navs[i].denom, o.navs[j].scope, o.navs[j].denom) })
 	// lookups
+	// a lookup iterator that fails (or panics) lists the sentinel -3: an observation, not a harness error
 	collect := func(kind string, f func(h func(id mdtypes.MetadataAddress) bool) error) []int64 {
 		l := []int64{}
-		must(f(func(id mdtypes.MetadataAddress) bool {
-			if len(id) == 17 {
-				l = append(l, e.uid(kind, id[1:]))
-			} else {
-				l = append(l, -1)
-			}
-			return false
-		}))
+		if err := try(func() error {
+			return f(func(id mdtypes.MetadataAddress) bool {
+				if len(id) == 17 {
+					l = append(l, e.uid(kind, id[1:]))
+				} else {
+					l = append(l, -1)
+				}
+				return false
+			})
+		}); err != nil {
+			l = append(l, -3)
+		}
 		return sortedSet(l)
 	}
 	for _, a := range e.accts {
@@ -798,7 +810,9 @@ func (e *c14Env) observe(ctx sdk.Context, ok bool) c14Obs {
 	}
 	for i := range e.cspecU {
 		id := e.cspecAddr(int64(i + 1))
-		o.lCS = append(o.lCS, collect("sspec", func(h func(mdtypes.MetadataAddress) bool) error { return k.IterateScopeSpecsForContractSpec(ctx, id, h) }))
+		o.lCS = append(o.lCS, collect("sspec", func(h func(mdtypes.MetadataAddress) bool) error {
+			return k.IterateScopeSpecsForContractSpec(ctx, id, h)
+		}))
 		l := []int64{}
 		must(k.IterateRecordSpecsForContractSpec(ctx, id, func(rid mdtypes.MetadataAddress) bool {
 			if rs, found := k.GetRecordSpecification(ctx, rid); found {
@@ -826,8 +840,42 @@ func (e *c14Env) observe(ctx sdk.Context, ok bool) c14Obs {
 		must(k.IterateRecords(ctx, id, func(r mdtypes.Record) bool { l2 = append(l2, e.nid(r.Name)); return false }))
 		o.lRec = append(o.lRec, sortedSet(l2))
 	}
+	// object store locators: all of them, and per scope
+	locOf := func(l mdtypes.ObjectStoreLocator) c14Loc {
+		lc := c14Loc{e.aid(l.Owner), -1}
+		for i, u := range e.uris {
+			if u == l.LocatorUri {
+				lc.uri = int64(i + 1)
+			}
+		}
+		return lc
+	}
+	must(k.IterateOSLocators(ctx, func(l mdtypes.ObjectStoreLocator) bool {
+		o.locs = append(o.locs, locOf(l))
+		return false
+	}))
+	sort.Slice(o.locs, func(i, j int) bool { return o.locs[i].acct < o.locs[j].acct })
+	for i := range e.scopeU {
+		var ls []mdtypes.ObjectStoreLocator
+		err := try(func() error {
+			var e2 error
+			ls, e2 = k.GetOSLocatorByScope(ctx, e.scopeAddr(int64(i+1)).String())
+			return e2
+		})
+		if err != nil {
+			o.lLocSc = append(o.lLocSc, "None")
+			continue
+		}
+		var items []string
+		for _, l := range ls {
+			items = append(items, locOf(l).coq())
+		}
+		o.lLocSc = append(o.lLocSc, "(Some "+coqList(items)+")")
+	}
 	return o
 }
+
+func (l c14Loc) coq() string { return fmt.Sprintf("(%s, %s)", zI64(l.acct), zI64(l.uri)) }
 
 func (o c14Obs) coq() string {
 	var a, b, c, d, f, g, h []string
@@ -852,8 +900,193 @@ func (o c14Obs) coq() string {
 	for _, s := range o.navs {
 		h = append(h, fmt.Sprintf("(%s, %s, %s)", zI64(s.scope), zI64(s.denom), zI64(s.price)))
 	}
-	return fmt.Sprintf("HO %s %s %s %s %s %s %s %s %s %s %s %s %s %s %s %s", coqBool(o.ok), coqList(a), coqList(b), coqList(c), coqList(d), coqList(f), coqList(g), coqList(h),
-		c14ZLL(o.lAS), c14ZLL(o.lSS), c14ZLL(o.lASP), c14ZLL(o.lCS), c14ZLL(o.lAC), c14ZLL(o.lSess), c14ZLL(o.lRec), c14ZLL(o.lRSpec))
+	var lc []string
+	for _, l := range o.locs {
+		lc = append(lc, l.coq())
+	}
+	return fmt.Sprintf("HO %s %s %s %s %s %s %s %s %s %s %s %s %s %s %s %s %s %s", coqBool(o.ok), coqList(a), coqList(b), coqList(c), coqList(d), coqList(f), coqList(g), coqList(h),
+		c14ZLL(o.lAS), c14ZLL(o.lSS), c14ZLL(o.lASP), c14ZLL(o.lCS), c14ZLL(o.lAC), c14ZLL(o.lSess), c14ZLL(o.lRec), c14ZLL(o.lRSpec), coqList(lc), coqList(o.lLocSc))
+}
+
+// ---------------------------------------------------------------- UTF-8 name stream
+
+// Alphabets for record names outside ASCII. "covered" runes lie inside the part of
+// unicode.ToLower that Metadata/Utf8Name.v transcribes (the whole normal form is then compared with
+// the model); names with an "uncovered" rune are compared on TrimSpace only and checked on the
+// normal form Go computed.
+var (
+	c14Covered = []rune("abcXYZ09-_." +
+		"ÀÉÎÕÜÞßçñÿ×÷µª" + // Latin-1
+		"ĀāĂăĮį" + // Latin Extended-A pairs
+		"ΑΒΓΣΩΪαβσςωάώ" + // Greek
+		"ЀЁЏАЖЯажяёѝ" + // Cyrillic
+		"\u212a\u2126\u212b" + // Kelvin, Ohm, Angstrom signs
+		"記録名レコード기록" + // CJK, Katakana, Hangul
+		"\U0001f600\U0001f64f\U0001f30d" + // pictographs
+		"שלسجกक" + // Hebrew, Arabic, Thai, Devanagari
+		"\u0301\u0308\u0345" + // combining marks
+		"\u200b\u2060€→∀\ufffd") // zero width space / word joiner (NOT white space), symbols, U+FFFD
+	c14Uncovered = []rune("ԱԲա" + // Armenian
+		"ƂƃǄǅ" + // Latin Extended-B
+		"İıĴŁŠŽſ" + // Latin Extended-A beyond 012F (dotted I, long s ...)
+		"ႠაᎠꭰ" + // Georgian, Cherokee
+		"Ａａ" + // fullwidth
+		"ẞḀἈⅠⒶⰀ" + // capital sharp s, Latin Extended Additional, Greek Extended, Roman numeral, circled, Glagolitic
+		"\U00010400\U00010428\U0001e900" + // Deseret, Adlam (4 byte letters with case)
+		"\ufeff\u180e") // BOM, Mongolian vowel separator (not white space)
+	c14Spaces = []rune("\t\n\v\f\r \u0085\u00a0\u1680\u2000\u2001\u2005\u200a\u2028\u2029\u202f\u205f\u3000")
+)
+
+func c14UName(r *rand.Rand) (name string, class string) {
+	class = "covered"
+	var sb strings.Builder
+	pad := func() {
+		for k := r.Intn(3); k > 0; k-- {
+			sb.WriteRune(c14Spaces[r.Intn(len(c14Spaces))])
+		}
+	}
+	if r.Intn(2) == 0 {
+		pad()
+	}
+	n := r.Intn(9)
+	if r.Intn(12) > 0 && n == 0 {
+		n = 1
+	}
+	unc := r.Intn(5) == 0
+	for i := 0; i < n; i++ {
+		switch {
+		case unc && r.Intn(3) == 0:
+			sb.WriteRune(c14Uncovered[r.Intn(len(c14Uncovered))])
+			class = "uncovered"
+		case r.Intn(10) == 0: // inner white space stays
+			sb.WriteRune(c14Spaces[r.Intn(len(c14Spaces))])
+		default:
+			sb.WriteRune(c14Covered[r.Intn(len(c14Covered))])
+		}
+	}
+	if r.Intn(2) == 0 {
+		pad()
+	}
+	name = sb.String()
+	if r.Intn(5) == 0 { // invalid UTF-8: stray / overlong / surrogate / truncated / impossible bytes
+		bad := [][]byte{{0xff}, {0x80}, {0xbf}, {0xc0, 0x80}, {0xc1, 0xbf}, {0xed, 0xa0, 0x80}, {0xe2, 0x80}, {0xf0, 0x9f, 0x98}, {0xf4, 0x90, 0x80, 0x80}, {0xf5}, {0xe0, 0x80, 0x80}, {0xc3}, {0xe3, 0x80}}[r.Intn(13)]
+		b := []byte(name)
+		i := r.Intn(len(b) + 1)
+		switch r.Intn(3) {
+		case 0:
+			i = 0
+		case 1:
+			i = len(b)
+		}
+		name = string(b[:i]) + string(bad) + string(b[i:])
+		if class == "covered" {
+			class = "invalid_utf8"
+		}
+	}
+	return name, class
+}
+
+// c14ConsObs builds every address kind from (u1, u2, name) with the real constructors and returns
+// the Coq observation term.
+func c14ConsObs(u1, u2 uuid.UUID, name string) (term string, recOK bool, rec []byte, all [][]byte) {
+	scope := mdtypes.ScopeMetadataAddress(u1)
+	sess := mdtypes.SessionMetadataAddress(u1, u2)
+	recOK, rec = c14MA(func() (mdtypes.MetadataAddress, error) { return mdtypes.RecordMetadataAddress(u1, name), nil })
+	sspec := mdtypes.ScopeSpecMetadataAddress(u1)
+	cspec := mdtypes.ContractSpecMetadataAddress(u2)
+	rspOK, rsp := c14MA(func() (mdtypes.MetadataAddress, error) { return mdtypes.RecordSpecMetadataAddress(u2, name), nil })
+	s1, t1 := c14MA(func() (mdtypes.MetadataAddress, error) { return scope.AsSessionAddress(u2) })
+	s2, t2 := c14MA(func() (mdtypes.MetadataAddress, error) { return sess.AsRecordAddress(name) })
+	s3, t3 := c14MA(func() (mdtypes.MetadataAddress, error) { return cspec.AsRecordSpecAddress(name) })
+	s4, t4 := c14MA(sess.AsScopeAddress)
+	s5, t5 := false, []byte(nil)
+	if recOK {
+		s5, t5 = c14MA(mdtypes.MetadataAddress(rec).AsScopeAddress)
+	}
+	s6, t6 := false, []byte(nil)
+	if rspOK {
+		s6, t6 = c14MA(mdtypes.MetadataAddress(rsp).AsContractSpecAddress)
+	}
+	term = fmt.Sprintf("(CO %s %s %s %s %s %s %s %s %s %s %s %s)",
+		c14B(scope), c14B(sess), c14OB(recOK, rec), c14B(sspec), c14B(cspec), c14OB(rspOK, rsp),
+		c14OB(s1, t1), c14OB(s2, t2), c14OB(s3, t3), c14OB(s4, t4), c14OB(s5, t5), c14OB(s6, t6))
+	all = [][]byte{scope, sess, sspec, cspec}
+	if recOK {
+		all = append(all, rec)
+	}
+	if rspOK {
+		all = append(all, rsp)
+	}
+	return term, recOK, rec, all
+}
+
+func c14AConsU(w *CaseWriter, u1, u2 uuid.UUID, name, class string) {
+	trimmed := strings.TrimSpace(name)
+	norm := strings.ToLower(trimmed)
+	obs, recOK, _, _ := c14ConsObs(u1, u2, name)
+	w.Add(fmt.Sprintf("AConsU %s %s %s %s %s %s %s", c14B(u1[:]), c14B(u2[:]), c14S(name), c14S(trimmed), c14S(norm), c14B(c14Hash16(name)), obs),
+		map[string]any{"kind": "cons_utf8:" + class, "u1": u1.String(), "u2": u2.String(), "name": name, "name_hex": hex.EncodeToString([]byte(name))})
+	w.Count("aconsu")
+	w.Count("aconsu_" + class)
+	if trimmed != name {
+		w.Count("aconsu_trimmed")
+	}
+	if norm != trimmed {
+		w.Count("aconsu_lowered")
+	}
+	if recOK {
+		w.Nontrivial("au:" + u1.String() + u2.String() + name)
+	} else {
+		w.Count("aconsu_blank_name")
+	}
+}
+
+func c14ANames(w *CaseWriter, u uuid.UUID, n1, n2, how string) {
+	o1, r1 := c14MA(func() (mdtypes.MetadataAddress, error) { return mdtypes.RecordMetadataAddress(u, n1), nil })
+	o2, r2 := c14MA(func() (mdtypes.MetadataAddress, error) { return mdtypes.RecordMetadataAddress(u, n2), nil })
+	w.Add(fmt.Sprintf("ANames %s %s %s %s %s %s %s", c14B(u[:]), c14S(n1), c14S(c14Norm(n1)), c14S(n2), c14S(c14Norm(n2)), c14OB(o1, r1), c14OB(o2, r2)),
+		map[string]any{"kind": "names:" + how, "n1": n1, "n2": n2})
+	w.Count("anames")
+	if o1 && o2 && string(r1) == string(r2) {
+		w.Count("anames_same_address")
+		w.Nontrivial("an:" + n1 + "|" + n2)
+	}
+}
+
+func c14NameStream(t *testing.T, w *CaseWriter, r *rand.Rand) {
+	for i := 0; i < scale(260, 6000); i++ {
+		name, class := c14UName(r)
+		c14AConsU(w, c14UUID(r), c14UUID(r), name, class)
+	}
+	for _, name := range []string{"\u212a", "k", "K", "\u00a0", "\u3000\u2028", "\u200b", " \u200b ", "İ", "I\u0307", "ß", "ẞ", "Σ", "ς", "σ",
+		"\xff", "a\xff", "a\xfe", "\xc2", "\xc2\xa0", "a\xc2\xa0", "\xa0", "\xe2\x80\xa8\xe2\x80", "\xef\xbf\xbd", "A\xef\xbf\xbd", "\u0085\u0085", "a\u0085", "\u180e"} {
+		class := "fixed"
+		c14AConsU(w, c14UUID(r), c14UUID(r), name, class)
+	}
+	// pairs: case variants and padding give the same record address, anything else another one
+	for i := 0; i < scale(80, 2000); i++ {
+		n1, _ := c14UName(r)
+		var n2, how string
+		switch r.Intn(6) {
+		case 0:
+			n2, how = strings.ToUpper(n1), "upper"
+		case 1:
+			n2, how = strings.ToLower(n1), "lower"
+		case 2:
+			n2, how = strings.ToTitle(n1), "title"
+		case 3:
+			n2, how = string(c14Spaces[r.Intn(len(c14Spaces))])+n1+string(c14Spaces[r.Intn(len(c14Spaces))]), "padded"
+		case 4:
+			n2, how = n1+string(c14Covered[r.Intn(len(c14Covered))]), "appended"
+		default:
+			n2, how = c14UName(r)
+			how = "other"
+		}
+		c14ANames(w, c14UUID(r), n1, n2, how)
+	}
+	c14ANames(w, c14UUID(r), "a\xff", "a\xfe", "invalid_bytes_collapse")
+	c14ANames(w, c14UUID(r), "\u212a", "k", "kelvin")
+	c14ANames(w, c14UUID(r), "Σ", "ς", "sigma")
 }
 
 // c14Op is one operation: its Coq term and how to run it on the real code.
@@ -956,9 +1189,162 @@ func (e *c14Env) msg(m c14VB) func(sdk.Context) error {
 	}
 }
 
+// ---- operation constructors (one per model constructor; used by the random generator and by the
+// directed histories that replay the Coq witnesses on the real code)
+
+func c14ScopeTerm(s c14Scope) string {
+	return fmt.Sprintf("(Sc %s %s %s %s)", zI64(s.id), zI64(s.spec), c14ZL(s.owners), c14ZL(s.da))
+}
+func c14SSpecTerm(s c14SSpec) string {
+	return fmt.Sprintf("(Ss %s %s %s)", zI64(s.id), c14ZL(s.owners), c14ZL(s.cspecs))
+}
+func c14CSpecTerm(s c14CSpec) string { return fmt.Sprintf("(Cs %s %s)", zI64(s.id), c14ZL(s.owners)) }
+
+func (e *c14Env) opWriteScope(s c14Scope, mills uint64, viaMsg bool) c14Op {
+	if viaMsg {
+		return c14Op{fmt.Sprintf("MWriteScope %s %d", c14ScopeTerm(s), mills), "MWriteScope", e.msg(mdtypes.NewMsgWriteScopeRequest(e.mkScope(s), e.signers, mills))}
+	}
+	return c14Op{"KSetScope " + c14ScopeTerm(s), "KSetScope", func(ctx sdk.Context) error { return e.app.MetadataKeeper.SetScope(ctx, e.mkScope(s)) }}
+}
+func (e *c14Env) opDeleteScope(id int64, viaMsg bool) c14Op {
+	if viaMsg {
+		return c14Op{"MDeleteScope " + zI64(id), "MDeleteScope", e.msg(mdtypes.NewMsgDeleteScopeRequest(e.scopeAddr(id), e.signers))}
+	}
+	return c14Op{"KRemoveScope " + zI64(id), "KRemoveScope", func(ctx sdk.Context) error { return e.app.MetadataKeeper.RemoveScope(ctx, e.scopeAddr(id)) }}
+}
+func (e *c14Env) opAddDA(id int64, l []int64) c14Op {
+	return c14Op{fmt.Sprintf("MAddDataAccess %d %s", id, c14ZL(l)), "MAddDataAccess", e.msg(mdtypes.NewMsgAddScopeDataAccessRequest(e.scopeAddr(id), e.strs(l), e.signers))}
+}
+func (e *c14Env) opDelDA(id int64, l []int64) c14Op {
+	return c14Op{fmt.Sprintf("MDelDataAccess %d %s", id, c14ZL(l)), "MDelDataAccess", e.msg(mdtypes.NewMsgDeleteScopeDataAccessRequest(e.scopeAddr(id), e.strs(l), e.signers))}
+}
+func (e *c14Env) opAddOwners(id int64, l []int64) c14Op {
+	return c14Op{fmt.Sprintf("MAddOwners %d %s", id, c14ZL(l)), "MAddOwners", e.msg(mdtypes.NewMsgAddScopeOwnerRequest(e.scopeAddr(id), e.parties(l), e.signers))}
+}
+func (e *c14Env) opDelOwners(id int64, l []int64) c14Op {
+	return c14Op{fmt.Sprintf("MDelOwners %d %s", id, c14ZL(l)), "MDelOwners", e.msg(mdtypes.NewMsgDeleteScopeOwnerRequest(e.scopeAddr(id), e.strs(l), e.signers))}
+}
+func (e *c14Env) opWriteSession(s c14Sess, parties []int64, raw bool) c14Op {
+	term := fmt.Sprintf("(Se %d %d %d)", s.scope, s.uuid, s.spec)
+	if raw {
+		return c14Op{"KSetSession " + term, "KSetSession", func(ctx sdk.Context) error {
+			e.app.MetadataKeeper.SetSession(ctx, e.mkSession(s, []int64{1}))
+			return nil
+		}}
+	}
+	return c14Op{"MWriteSession " + term, "MWriteSession", e.msg(mdtypes.NewMsgWriteSessionRequest(e.mkSession(s, parties), e.signers))}
+}
+func (e *c14Env) opRemoveSession(su, ss int64) c14Op {
+	return c14Op{fmt.Sprintf("KRemoveSession %d %d", su, ss), "KRemoveSession", func(ctx sdk.Context) error { e.app.MetadataKeeper.RemoveSession(ctx, e.sessAddr(su, ss)); return nil }}
+}
+func (e *c14Env) opWriteRecord(rc c14Rec, raw bool) c14Op {
+	term := fmt.Sprintf("(Re %d %d %d)", rc.scope, rc.name, rc.sess)
+	if raw {
+		return c14Op{"KSetRecord " + term, "KSetRecord", func(ctx sdk.Context) error { e.app.MetadataKeeper.SetRecord(ctx, e.mkRecord(rc)); return nil }}
+	}
+	return c14Op{"MWriteRecord " + term, "MWriteRecord", e.msg(mdtypes.NewMsgWriteRecordRequest(e.mkRecord(rc), nil, "", e.signers, nil))}
+}
+func (e *c14Env) opDeleteRecord(su, n int64, viaMsg bool) c14Op {
+	if viaMsg {
+		return c14Op{fmt.Sprintf("MDeleteRecord %d %d", su, n), "MDeleteRecord", e.msg(mdtypes.NewMsgDeleteRecordRequest(e.recAddr(su, n), e.signers))}
+	}
+	return c14Op{fmt.Sprintf("KRemoveRecord %d %d", su, n), "KRemoveRecord", func(ctx sdk.Context) error { e.app.MetadataKeeper.RemoveRecord(ctx, e.recAddr(su, n)); return nil }}
+}
+func (e *c14Env) opWriteSSpec(s c14SSpec, viaMsg bool) c14Op {
+	if viaMsg {
+		return c14Op{"MWriteSSpec " + c14SSpecTerm(s), "MWriteSSpec", e.msg(mdtypes.NewMsgWriteScopeSpecificationRequest(e.mkSSpec(s), e.signers))}
+	}
+	return c14Op{"KSetSSpec " + c14SSpecTerm(s), "KSetSSpec", func(ctx sdk.Context) error { e.app.MetadataKeeper.SetScopeSpecification(ctx, e.mkSSpec(s)); return nil }}
+}
+func (e *c14Env) opDeleteSSpec(id int64, viaMsg bool) c14Op {
+	if viaMsg {
+		return c14Op{"MDeleteSSpec " + zI64(id), "MDeleteSSpec", e.msg(mdtypes.NewMsgDeleteScopeSpecificationRequest(e.sspecAddr(id), e.signers))}
+	}
+	return c14Op{"KRemoveSSpec " + zI64(id), "KRemoveSSpec", func(ctx sdk.Context) error {
+		return e.app.MetadataKeeper.RemoveScopeSpecification(ctx, e.sspecAddr(id))
+	}}
+}
+func (e *c14Env) opWriteCSpec(s c14CSpec, viaMsg bool) c14Op {
+	if viaMsg {
+		return c14Op{"MWriteCSpec " + c14CSpecTerm(s), "MWriteCSpec", e.msg(mdtypes.NewMsgWriteContractSpecificationRequest(e.mkCSpec(s), e.signers))}
+	}
+	return c14Op{"KSetCSpec " + c14CSpecTerm(s), "KSetCSpec", func(ctx sdk.Context) error {
+		e.app.MetadataKeeper.SetContractSpecification(ctx, e.mkCSpec(s))
+		return nil
+	}}
+}
+func (e *c14Env) opDeleteCSpec(id int64, viaMsg bool) c14Op {
+	if viaMsg {
+		return c14Op{"MDeleteCSpec " + zI64(id), "MDeleteCSpec", e.msg(mdtypes.NewMsgDeleteContractSpecificationRequest(e.cspecAddr(id), e.signers))}
+	}
+	return c14Op{"KRemoveCSpec " + zI64(id), "KRemoveCSpec", func(ctx sdk.Context) error {
+		return e.app.MetadataKeeper.RemoveContractSpecification(ctx, e.cspecAddr(id))
+	}}
+}
+func (e *c14Env) opWriteRSpec(s c14RSpec, viaMsg bool) c14Op {
+	term := fmt.Sprintf("(Rs %d %d)", s.cspec, s.name)
+	if viaMsg {
+		return c14Op{"MWriteRSpec " + term, "MWriteRSpec", e.msg(mdtypes.NewMsgWriteRecordSpecificationRequest(e.mkRSpec(s), e.signers))}
+	}
+	return c14Op{"KSetRSpec " + term, "KSetRSpec", func(ctx sdk.Context) error {
+		e.app.MetadataKeeper.SetRecordSpecification(ctx, e.mkRSpec(s))
+		return nil
+	}}
+}
+func (e *c14Env) opDeleteRSpec(cu, n int64, viaMsg bool) c14Op {
+	if viaMsg {
+		return c14Op{fmt.Sprintf("MDeleteRSpec %d %d", cu, n), "MDeleteRSpec", e.msg(mdtypes.NewMsgDeleteRecordSpecificationRequest(e.rspecAddr(cu, n), e.signers))}
+	}
+	return c14Op{fmt.Sprintf("KRemoveRSpec %d %d", cu, n), "KRemoveRSpec", func(ctx sdk.Context) error {
+		return e.app.MetadataKeeper.RemoveRecordSpecification(ctx, e.rspecAddr(cu, n))
+	}}
+}
+func (e *c14Env) opAddCSpecToSSpec(c, s int64) c14Op {
+	return c14Op{fmt.Sprintf("MAddCSpecToSSpec %d %d", c, s), "MAddCSpecToSSpec", e.msg(mdtypes.NewMsgAddContractSpecToScopeSpecRequest(e.cspecAddr(c), e.sspecAddr(s), e.signers))}
+}
+func (e *c14Env) opDelCSpecFromSSpec(c, s int64) c14Op {
+	return c14Op{fmt.Sprintf("MDelCSpecFromSSpec %d %d", c, s), "MDelCSpecFromSSpec", e.msg(mdtypes.NewMsgDeleteContractSpecFromScopeSpecRequest(e.cspecAddr(c), e.sspecAddr(s), e.signers))}
+}
+func (e *c14Env) opAddNav(sc, price int64) c14Op {
+	return c14Op{fmt.Sprintf("MAddNav %d %d", sc, price), "MAddNav", e.msg(mdtypes.NewMsgAddNetAssetValuesRequest(e.scopeAddr(sc).String(), e.signers,
+		[]mdtypes.NetAssetValue{mdtypes.NewNetAssetValue(sdk.NewInt64Coin(mdtypes.UsdDenom, price), 1)}))}
+}
+func (e *c14Env) opRemoveNavs(sc int64) c14Op {
+	return c14Op{fmt.Sprintf("KRemoveNavs %d", sc), "KRemoveNavs", func(ctx sdk.Context) error {
+		e.app.MetadataKeeper.RemoveNetAssetValues(ctx, e.scopeAddr(sc))
+		return nil
+	}}
+}
+func (e *c14Env) opSetNav(sc, d, price int64) c14Op {
+	return c14Op{fmt.Sprintf("KSetNav %d %d %d", sc, d, price), "KSetNav", func(ctx sdk.Context) error {
+		return e.app.MetadataKeeper.SetNetAssetValue(ctx, e.scopeAddr(sc), mdtypes.NewNetAssetValue(sdk.NewCoin(e.denoms[d], sdkmath.NewInt(price)), 1), "harness")
+	}}
+}
+
+// uriStr: id 0 = a URI that passes ValidateBasic (not blank, parses) but that checkValidURI
+// rejects (no scheme / no host / longer than the MaxUriLength parameter).
+func (e *c14Env) uriStr(id int64, variant int) string {
+	if id == 0 {
+		return []string{"nohost", "/relative/path", "http://h.example/" + strings.Repeat("x", 5000), "mailto:someone"}[variant%4]
+	}
+	return e.uris[id-1]
+}
+func (e *c14Env) opBindLoc(a, uri int64, variant int) c14Op {
+	loc := mdtypes.ObjectStoreLocator{Owner: e.entryStr(a), LocatorUri: e.uriStr(uri, variant)}
+	return c14Op{fmt.Sprintf("MBindLoc %s %d %d", coqBool(e.hasAcct[a%100]), a, uri), "MBindLoc", e.msg(mdtypes.NewMsgBindOSLocatorRequest(loc))}
+}
+func (e *c14Env) opDelLoc(a, uri int64, variant int) c14Op {
+	loc := mdtypes.ObjectStoreLocator{Owner: e.entryStr(a), LocatorUri: e.uriStr(uri, variant)}
+	return c14Op{fmt.Sprintf("MDelLoc %d", a), "MDelLoc", e.msg(mdtypes.NewMsgDeleteOSLocatorRequest(loc))}
+}
+func (e *c14Env) opModLoc(a, uri int64, variant int) c14Op {
+	loc := mdtypes.ObjectStoreLocator{Owner: e.entryStr(a), LocatorUri: e.uriStr(uri, variant)}
+	return c14Op{fmt.Sprintf("MModLoc %d %d", a, uri), "MModLoc", e.msg(mdtypes.NewMsgModifyOSLocatorRequest(loc))}
+}
+
 func pickN(r *rand.Rand, n int) int64 { return int64(1 + r.Intn(n)) }
 
-// subset returns a non-empty (unless allowEmpty) random sublist of 1..n in random order, sometimes with a duplicate.
+// subset returns a non-empty (unless allowEmpty) random sublist of 1..n in random order.
 func subset(r *rand.Rand, n int, allowEmpty bool) []int64 {
 	var out []int64
 	for _, i := range r.Perm(n) {
@@ -981,10 +1367,11 @@ func has[T any](l []T, p func(T) bool) bool {
 	return false
 }
 
+func hasI64(l []int64, x int64) bool { return has(l, func(y int64) bool { return y == x }) }
+
 // genOp draws the next operation; [last] is the state the real code is in, used to aim most
 // operations at entries that exist (or, for creations, at parents that exist).
-func (e *c14Env) genOp(r *rand.Rand, last c14Obs, step int, raw bool) c14Op {
-	k := e.app.MetadataKeeper
+func (e *c14Env) genOp(r *rand.Rand, last c14Obs, step int, raw, msgOnly bool) c14Op {
 	nA, nSc, nSe, nN, nSS, nCS := len(e.accts), len(e.scopeU), len(e.sessU), len(e.names), len(e.sspecU), len(e.cspecU)
 	aimScope := func() int64 {
 		if len(last.scopes) > 0 && r.Intn(8) > 0 {
@@ -1004,13 +1391,31 @@ func (e *c14Env) genOp(r *rand.Rand, last c14Obs, step int, raw bool) c14Op {
 		}
 		return pickN(r, nCS)
 	}
-	scopeTerm := func(s c14Scope) string {
-		return fmt.Sprintf("(Sc %s %s %s %s)", zI64(s.id), zI64(s.spec), c14ZL(s.owners), c14ZL(s.da))
+	entry := func() int64 { // an account entry in one of its two spellings
+		a := pickN(r, nA)
+		if r.Intn(3) == 0 {
+			a += 100
+		}
+		return a
+	}
+	scopeOf := func(id int64) *c14Scope {
+		for i := range last.scopes {
+			if last.scopes[i].id == id {
+				return &last.scopes[i]
+			}
+		}
+		return nil
 	}
 	genScope := func() c14Scope {
 		s := c14Scope{id: aimScope(), spec: aimSSpec(), owners: respell(r, subset(r, nA, false)), da: respell(r, subset(r, nA, true))}
 		if r.Intn(6) == 0 && len(s.da) > 0 { // duplicate data access entry
 			s.da = append(s.da, s.da[0])
+		}
+		switch r.Intn(25) { // owner lists that ValidatePartiesBasic rejects
+		case 0:
+			s.owners = nil
+		case 1:
+			s.owners = append(s.owners, s.owners[0])
 		}
 		return s
 	}
@@ -1074,11 +1479,7 @@ func (e *c14Env) genOp(r *rand.Rand, last c14Obs, step int, raw bool) c14Op {
 		}
 		return s
 	}
-	sspecTerm := func(s c14SSpec) string {
-		return fmt.Sprintf("(Ss %s %s %s)", zI64(s.id), c14ZL(s.owners), c14ZL(s.cspecs))
-	}
 	genCSpec := func() c14CSpec { return c14CSpec{id: pickN(r, nCS), owners: respell(r, subset(r, nA, false))} }
-	cspecTerm := func(s c14CSpec) string { return fmt.Sprintf("(Cs %s %s)", zI64(s.id), c14ZL(s.owners)) }
 	genRSpec := func() c14RSpec {
 		rs := c14RSpec{cspec: aimCSpec(), name: pickN(r, nN)}
 		for try := 0; try < 3 && has(last.rspecs, func(x c14RSpec) bool { return x == rs }); try++ {
@@ -1087,9 +1488,11 @@ func (e *c14Env) genOp(r *rand.Rand, last c14Obs, step int, raw bool) c14Op {
 		return rs
 	}
 
-	useMsg := r.Intn(2) == 0
+	// msgOnly: every operation that has a message goes through its message (the history stays inside
+	// [spec_guarded]: no raw specification / scope writers, no bare RemoveContractSpecification)
+	useMsg := msgOnly || r.Intn(2) == 0
 	// the first steps build specifications so that later writes can be accepted
-	sel := r.Intn(100)
+	sel := r.Intn(114)
 	if step < 9 {
 		sel = []int{74, 74, 82, 82, 82, 65, 65, 0, 0}[step]
 	}
@@ -1099,54 +1502,59 @@ func (e *c14Env) genOp(r *rand.Rand, last c14Obs, step int, raw bool) c14Op {
 	switch {
 	case sel < 12: // write scope
 		s := genScope()
-		if useMsg || step == 7 {
-			var mills uint64
-			if r.Intn(3) == 0 {
-				mills = uint64(1 + r.Intn(1000))
-			}
-			return c14Op{fmt.Sprintf("MWriteScope %s %d", scopeTerm(s), mills), "MWriteScope", e.msg(mdtypes.NewMsgWriteScopeRequest(e.mkScope(s), e.signers, mills))}
-		}
-		return c14Op{"KSetScope " + scopeTerm(s), "KSetScope", func(ctx sdk.Context) error { return k.SetScope(ctx, e.mkScope(s)) }}
-	case sel < 18: // delete scope
-		id := aimScope()
-		if useMsg {
-			return c14Op{"MDeleteScope " + zI64(id), "MDeleteScope", e.msg(mdtypes.NewMsgDeleteScopeRequest(e.scopeAddr(id), e.signers))}
-		}
-		return c14Op{"KRemoveScope " + zI64(id), "KRemoveScope", func(ctx sdk.Context) error { return k.RemoveScope(ctx, e.scopeAddr(id)) }}
-	case sel < 23: // data access
-		id, a := aimScope(), pickN(r, nA)
+		var mills uint64
 		if r.Intn(3) == 0 {
-			a += 100
+			mills = uint64(1 + r.Intn(1000))
 		}
+		return e.opWriteScope(s, mills, useMsg || step == 7)
+	case sel < 18: // delete scope
+		return e.opDeleteScope(aimScope(), useMsg)
+	case sel < 23: // data access: one or two entries; mostly absent ones for add, present ones for delete
+		id := aimScope()
+		sc := scopeOf(id)
+		n := 1 + r.Intn(2)
+		var l []int64
 		if r.Intn(2) == 0 {
-			return c14Op{fmt.Sprintf("MAddDataAccess %d %d", id, a), "MAddDataAccess", e.msg(mdtypes.NewMsgAddScopeDataAccessRequest(e.scopeAddr(id), e.strs([]int64{a}), e.signers))}
+			for len(l) < n {
+				a := entry()
+				if sc != nil && hasI64(sc.da, a) && r.Intn(5) > 0 {
+					continue
+				}
+				l = append(l, a)
+			}
+			if r.Intn(6) == 0 {
+				l = append(l, l[0]) // the request repeats an entry
+			}
+			if r.Intn(20) == 0 {
+				l = nil
+			}
+			return e.opAddDA(id, l)
 		}
-		for _, sc := range last.scopes {
-			if sc.id == id && len(sc.da) > 0 && r.Intn(5) > 0 {
+		for len(l) < n {
+			a := entry()
+			if sc != nil && len(sc.da) > 0 && r.Intn(6) > 0 {
 				a = sc.da[r.Intn(len(sc.da))]
 			}
+			l = append(l, a)
 		}
-		return c14Op{fmt.Sprintf("MDelDataAccess %d %d", id, a), "MDelDataAccess", e.msg(mdtypes.NewMsgDeleteScopeDataAccessRequest(e.scopeAddr(id), e.strs([]int64{a}), e.signers))}
+		if r.Intn(20) == 0 {
+			l = nil
+		}
+		return e.opDelDA(id, l)
 	case sel < 36: // write session
 		s := genSess()
-		term := fmt.Sprintf("(Se %d %d %d)", s.scope, s.uuid, s.spec)
-		if raw && r.Intn(3) == 0 {
-			return c14Op{"KSetSession " + term, "KSetSession", func(ctx sdk.Context) error { k.SetSession(ctx, e.mkSession(s, []int64{1})); return nil }}
-		}
 		owners := []int64{1}
-		for _, sc := range last.scopes {
-			if sc.id == s.scope {
-				owners = sc.owners[:1]
-			}
+		if sc := scopeOf(s.scope); sc != nil && len(sc.owners) > 0 {
+			owners = sc.owners[:1]
 		}
-		return c14Op{"MWriteSession " + term, "MWriteSession", e.msg(mdtypes.NewMsgWriteSessionRequest(e.mkSession(s, owners), e.signers))}
+		return e.opWriteSession(s, owners, raw && r.Intn(3) == 0)
 	case sel < 39: // remove session (keeper)
 		su, ss := aimScope(), pickN(r, nSe)
 		if len(last.sess) > 0 && r.Intn(6) > 0 {
 			x := last.sess[r.Intn(len(last.sess))]
 			su, ss = x.scope, x.uuid
 		}
-		return c14Op{fmt.Sprintf("KRemoveSession %d %d", su, ss), "KRemoveSession", func(ctx sdk.Context) error { k.RemoveSession(ctx, e.sessAddr(su, ss)); return nil }}
+		return e.opRemoveSession(su, ss)
 	case sel < 57: // write record (new, update, or move to another session of the scope)
 		rc := genRec()
 		if r.Intn(3) == 0 && len(last.recs) > 0 { // aim a move: existing record, another existing session of its scope
@@ -1157,194 +1565,408 @@ func (e *c14Env) genOp(r *rand.Rand, last c14Obs, step int, raw bool) c14Op {
 				}
 			}
 		}
-		term := fmt.Sprintf("(Re %d %d %d)", rc.scope, rc.name, rc.sess)
-		if raw && r.Intn(3) == 0 {
-			return c14Op{"KSetRecord " + term, "KSetRecord", func(ctx sdk.Context) error { k.SetRecord(ctx, e.mkRecord(rc)); return nil }}
-		}
-		return c14Op{"MWriteRecord " + term, "MWriteRecord", e.msg(mdtypes.NewMsgWriteRecordRequest(e.mkRecord(rc), nil, "", e.signers, nil))}
+		return e.opWriteRecord(rc, raw && r.Intn(3) == 0)
 	case sel < 65: // delete record
 		su, n := aimRec()
-		if useMsg {
-			return c14Op{fmt.Sprintf("MDeleteRecord %d %d", su, n), "MDeleteRecord", e.msg(mdtypes.NewMsgDeleteRecordRequest(e.recAddr(su, n), e.signers))}
-		}
-		return c14Op{fmt.Sprintf("KRemoveRecord %d %d", su, n), "KRemoveRecord", func(ctx sdk.Context) error { k.RemoveRecord(ctx, e.recAddr(su, n)); return nil }}
+		return e.opDeleteRecord(su, n, useMsg)
 	case sel < 71: // write scope spec
-		s := genSSpec()
-		if useMsg {
-			return c14Op{"MWriteSSpec " + sspecTerm(s), "MWriteSSpec", e.msg(mdtypes.NewMsgWriteScopeSpecificationRequest(e.mkSSpec(s), e.signers))}
-		}
-		return c14Op{"KSetSSpec " + sspecTerm(s), "KSetSSpec", func(ctx sdk.Context) error { k.SetScopeSpecification(ctx, e.mkSSpec(s)); return nil }}
+		return e.opWriteSSpec(genSSpec(), useMsg)
 	case sel < 74: // delete scope spec
-		id := aimSSpec()
-		if useMsg {
-			return c14Op{"MDeleteSSpec " + zI64(id), "MDeleteSSpec", e.msg(mdtypes.NewMsgDeleteScopeSpecificationRequest(e.sspecAddr(id), e.signers))}
-		}
-		return c14Op{"KRemoveSSpec " + zI64(id), "KRemoveSSpec", func(ctx sdk.Context) error { return k.RemoveScopeSpecification(ctx, e.sspecAddr(id)) }}
+		return e.opDeleteSSpec(aimSSpec(), useMsg)
 	case sel < 79: // write contract spec
-		s := genCSpec()
-		if useMsg {
-			return c14Op{"MWriteCSpec " + cspecTerm(s), "MWriteCSpec", e.msg(mdtypes.NewMsgWriteContractSpecificationRequest(e.mkCSpec(s), e.signers))}
-		}
-		return c14Op{"KSetCSpec " + cspecTerm(s), "KSetCSpec", func(ctx sdk.Context) error { k.SetContractSpecification(ctx, e.mkCSpec(s)); return nil }}
+		return e.opWriteCSpec(genCSpec(), useMsg)
 	case sel < 82: // delete contract spec
-		id := aimCSpec()
-		if useMsg {
-			return c14Op{"MDeleteCSpec " + zI64(id), "MDeleteCSpec", e.msg(mdtypes.NewMsgDeleteContractSpecificationRequest(e.cspecAddr(id), e.signers))}
-		}
-		return c14Op{"KRemoveCSpec " + zI64(id), "KRemoveCSpec", func(ctx sdk.Context) error { return k.RemoveContractSpecification(ctx, e.cspecAddr(id)) }}
+		return e.opDeleteCSpec(aimCSpec(), useMsg)
 	case sel < 90: // write record spec
-		s := genRSpec()
-		term := fmt.Sprintf("(Rs %d %d)", s.cspec, s.name)
-		if useMsg {
-			return c14Op{"MWriteRSpec " + term, "MWriteRSpec", e.msg(mdtypes.NewMsgWriteRecordSpecificationRequest(e.mkRSpec(s), e.signers))}
-		}
-		return c14Op{"KSetRSpec " + term, "KSetRSpec", func(ctx sdk.Context) error { k.SetRecordSpecification(ctx, e.mkRSpec(s)); return nil }}
+		return e.opWriteRSpec(genRSpec(), useMsg)
 	case sel < 92: // delete record spec
 		cu, n := aimCSpec(), pickN(r, nN)
 		if len(last.rspecs) > 0 && r.Intn(6) > 0 {
 			x := last.rspecs[r.Intn(len(last.rspecs))]
 			cu, n = x.cspec, x.name
 		}
-		if useMsg {
-			return c14Op{fmt.Sprintf("MDeleteRSpec %d %d", cu, n), "MDeleteRSpec", e.msg(mdtypes.NewMsgDeleteRecordSpecificationRequest(e.rspecAddr(cu, n), e.signers))}
-		}
-		return c14Op{fmt.Sprintf("KRemoveRSpec %d %d", cu, n), "KRemoveRSpec", func(ctx sdk.Context) error { return k.RemoveRecordSpecification(ctx, e.rspecAddr(cu, n)) }}
+		return e.opDeleteRSpec(cu, n, useMsg)
 	case sel < 96: // contract spec <-> scope spec
 		c, s := aimCSpec(), aimSSpec()
 		if r.Intn(2) == 0 {
-			return c14Op{fmt.Sprintf("MAddCSpecToSSpec %d %d", c, s), "MAddCSpecToSSpec", e.msg(mdtypes.NewMsgAddContractSpecToScopeSpecRequest(e.cspecAddr(c), e.sspecAddr(s), e.signers))}
+			return e.opAddCSpecToSSpec(c, s)
 		}
-		return c14Op{fmt.Sprintf("MDelCSpecFromSSpec %d %d", c, s), "MDelCSpecFromSSpec", e.msg(mdtypes.NewMsgDeleteContractSpecFromScopeSpecRequest(e.cspecAddr(c), e.sspecAddr(s), e.signers))}
-	default: // net asset values
+		return e.opDelCSpecFromSSpec(c, s)
+	case sel < 100: // net asset values
 		sc, price := aimScope(), int64(r.Intn(5000))
 		switch r.Intn(4) {
 		case 0:
-			return c14Op{fmt.Sprintf("MAddNav %d %d", sc, price), "MAddNav", e.msg(mdtypes.NewMsgAddNetAssetValuesRequest(e.scopeAddr(sc).String(), e.signers,
-				[]mdtypes.NetAssetValue{mdtypes.NewNetAssetValue(sdk.NewInt64Coin(mdtypes.UsdDenom, price), 1)}))}
+			return e.opAddNav(sc, price)
 		case 1:
-			return c14Op{fmt.Sprintf("KRemoveNavs %d", sc), "KRemoveNavs", func(ctx sdk.Context) error { k.RemoveNetAssetValues(ctx, e.scopeAddr(sc)); return nil }}
+			return e.opRemoveNavs(sc)
 		default:
-			d := int64(r.Intn(len(e.denoms)))
-			return c14Op{fmt.Sprintf("KSetNav %d %d %d", sc, d, price), "KSetNav", func(ctx sdk.Context) error {
-				return k.SetNetAssetValue(ctx, e.scopeAddr(sc), mdtypes.NewNetAssetValue(sdk.NewCoin(e.denoms[d], sdkmath.NewInt(price)), 1), "harness")
-			}}
+			return e.opSetNav(sc, int64(r.Intn(len(e.denoms))), price)
 		}
+	case sel < 108: // owners: add parties that are not there yet / delete some (not all) that are
+		id := aimScope()
+		sc := scopeOf(id)
+		n := 1 + r.Intn(2)
+		var l []int64
+		if r.Intn(2) == 0 {
+			for tries := 0; len(l) < n && tries < 20; tries++ {
+				a := entry()
+				if (sc != nil && hasI64(sc.owners, a) || hasI64(l, a)) && r.Intn(6) > 0 {
+					continue
+				}
+				l = append(l, a)
+			}
+			if r.Intn(20) == 0 {
+				l = nil
+			}
+			return e.opAddOwners(id, l)
+		}
+		for len(l) < n {
+			a := entry()
+			if sc != nil && len(sc.owners) > 0 && r.Intn(6) > 0 {
+				a = sc.owners[r.Intn(len(sc.owners))]
+			}
+			l = append(l, a)
+		}
+		if sc != nil && r.Intn(10) == 0 { // every owner: must be refused
+			l = append([]int64{}, sc.owners...)
+		}
+		if r.Intn(20) == 0 {
+			l = nil
+		}
+		return e.opDelOwners(id, l)
+	default: // object store locators (they belong to accounts, not to scopes)
+		a := entry()
+		uri := int64(r.Intn(len(e.uris) + 1))
+		if uri == 0 && r.Intn(3) > 0 {
+			uri = pickN(r, len(e.uris))
+		}
+		bound := has(last.locs, func(l c14Loc) bool { return l.acct == a%100 })
+		switch {
+		case (!bound && r.Intn(5) > 0) || r.Intn(8) == 0:
+			return e.opBindLoc(a, uri, r.Intn(4))
+		case r.Intn(2) == 0:
+			return e.opModLoc(a, uri, r.Intn(4))
+		default:
+			return e.opDelLoc(a, uri, r.Intn(4))
+		}
+	}
+}
+
+// c14Witnesses are the computed witnesses of Properties/C14.v, replayed on the real code (the
+// correspondence tags of these histories pass iff the real code does what the model computed).
+func (e *c14Env) witnesses() map[string][]c14Op {
+	sp := c14SSpec{1, []int64{1}, []int64{1}}
+	cs := c14CSpec{1, []int64{1}}
+	sc := c14Scope{1, 1, []int64{1}, nil}
+	return map[string][]c14Op{
+		// a session whose contract specification is deleted, by messages only
+		"session_cspec": {e.opWriteCSpec(cs, true), e.opWriteSSpec(sp, true), e.opWriteScope(sc, 0, true), e.opWriteSession(c14Sess{1, 1, 1}, []int64{1}, false),
+			e.opDelCSpecFromSSpec(1, 1), e.opDeleteCSpec(1, true)},
+		// a record whose record specification is deleted, by messages only
+		"record_rspec": {e.opWriteCSpec(cs, true), e.opWriteRSpec(c14RSpec{1, 3}, true), e.opWriteSSpec(sp, true), e.opWriteScope(sc, 0, true),
+			e.opWriteSession(c14Sess{1, 1, 1}, []int64{1}, false), e.opWriteRecord(c14Rec{1, 3, 1}, false), e.opDeleteRSpec(1, 3, true)},
+		// keeper RemoveContractSpecification leaves the record specifications
+		"rspec_orphan": {e.opWriteCSpec(cs, true), e.opWriteRSpec(c14RSpec{1, 3}, true), e.opDeleteCSpec(1, false)},
+		// raw writers: a scope without specification accepts data access but not owner changes
+		"raw_scope": {e.opWriteScope(c14Scope{1, 2, []int64{1}, nil}, 0, false), e.opAddDA(1, []int64{2}), e.opAddOwners(1, []int64{2})},
+		// a listed contract spec id is never re-checked
+		"raw_sspec": {e.opWriteSSpec(c14SSpec{1, []int64{1}, []int64{3}}, false), e.opWriteSSpec(c14SSpec{1, []int64{2}, []int64{3}}, true), e.opWriteSSpec(c14SSpec{2, []int64{2}, []int64{3}}, true)},
+		// keeper RemoveScope keeps the net asset values, MsgDeleteScope removes them
+		"keeper_remove_scope_keeps_nav": {e.opWriteCSpec(cs, true), e.opWriteSSpec(sp, true), e.opWriteScope(sc, 25, true), e.opSetNav(1, 1, 7), e.opDeleteScope(1, false),
+			e.opWriteScope(sc, 0, true), e.opDeleteScope(1, true)},
+		// owners and locators: the locator of an owner is listed once per spelling; deleting the scope keeps it
+		"locators": {e.opWriteCSpec(cs, true), e.opWriteSSpec(sp, true), e.opWriteScope(c14Scope{1, 1, []int64{1, 101}, nil}, 0, true), e.opBindLoc(1, 1, 0), e.opBindLoc(104, 2, 0),
+			e.opAddOwners(1, []int64{2}), e.opBindLoc(102, 2, 0), e.opDelOwners(1, []int64{1}), e.opModLoc(1, 3, 0), e.opDeleteScope(1, true), e.opDelLoc(2, 0, 0)},
+		// the last owner cannot be removed; both spellings are different parties
+		"owners": {e.opWriteCSpec(cs, true), e.opWriteSSpec(sp, true), e.opWriteScope(sc, 0, true), e.opDelOwners(1, []int64{1}), e.opAddOwners(1, []int64{1}), e.opAddOwners(1, []int64{101, 3}),
+			e.opDelOwners(1, []int64{1, 3}), e.opDelOwners(1, []int64{101}), e.opAddOwners(1, []int64{2, 2})},
+	}
+}
+
+// danglers counts, on an observed state, the reference shapes Properties/C14.v has theorems or
+// witnesses about.
+func c14Danglers(o c14Obs) []string {
+	var out []string
+	hasSS := func(id int64) bool { return has(o.sspecs, func(x c14SSpec) bool { return x.id == id }) }
+	hasCS := func(id int64) bool { return has(o.cspecs, func(x c14CSpec) bool { return x.id == id }) }
+	hasSc := func(id int64) bool { return has(o.scopes, func(x c14Scope) bool { return x.id == id }) }
+	for _, s := range o.scopes {
+		if !hasSS(s.spec) {
+			out = append(out, "scope_without_scope_spec")
+		}
+	}
+	for _, s := range o.sspecs {
+		for _, c := range s.cspecs {
+			if !hasCS(c) {
+				out = append(out, "scope_spec_lists_missing_contract_spec")
+			}
+		}
+	}
+	for _, s := range o.sess {
+		if !hasCS(s.spec) {
+			out = append(out, "session_without_contract_spec")
+		}
+	}
+	for _, rs := range o.rspecs {
+		if !hasCS(rs.cspec) {
+			out = append(out, "record_spec_without_contract_spec")
+		}
+	}
+	for _, rc := range o.recs {
+		for _, s := range o.sess {
+			if s.scope == rc.scope && s.uuid == rc.sess && !has(o.rspecs, func(x c14RSpec) bool { return x.cspec == s.spec && x.name == rc.name }) {
+				out = append(out, "record_without_record_spec")
+			}
+		}
+	}
+	for _, n := range o.navs {
+		if !hasSc(n.scope) {
+			out = append(out, "nav_without_scope")
+		}
+	}
+	return out
+}
+
+// storeKeys dumps every key of the metadata KV store (except the constant locator-params key).
+func (e *c14Env) storeKeys(ctx sdk.Context) []string {
+	store := ctx.KVStore(e.app.GetKey(mdtypes.StoreKey))
+	it := store.Iterator(nil, nil)
+	defer it.Close()
+	var out []string
+	for ; it.Valid(); it.Next() {
+		k := it.Key()
+		if len(k) > 0 && k[0] == 0x23 {
+			continue
+		}
+		out = append(out, c14B(k))
+	}
+	return out
+}
+
+func c14BL(l [][]byte) string {
+	items := make([]string, len(l))
+	for i, b := range l {
+		items[i] = c14B(b)
+	}
+	return coqList(items)
+}
+
+func c14NewEnv(app *simapp.App, r *rand.Rand) *c14Env {
+	e := &c14Env{app: app, acctID: map[string]int64{}, uuidID: map[string]int64{}, nameID: map[string]int64{}, hasAcct: map[int64]bool{},
+		denoms: []string{mdtypes.UsdDenom, "navb", "navc"}, uris: []string{"http://h1.example/os", "https://h2.example:8080/a/b?c=d", "grpc://h3.example"}}
+	for i := 0; i < 4; i++ {
+		a := addrN(1400 + i)
+		if i == 3 { // a 32 byte account that STARTS WITH account 1's 20 bytes: the account part of the lookup keys is length-prefixed
+			a = sdk.AccAddress(append(append([]byte{}, e.accts[0]...), []byte("_verif32byte")...))
+		}
+		e.accts = append(e.accts, a)
+		e.hasAcct[int64(i+1)] = i < 3 // what prepare() arranges (and then observes)
+		e.acctID[a.String()] = int64(i + 1)
+		e.acctID[strings.ToUpper(a.String())] = int64(100 + i + 1)
+		e.signers = append(e.signers, a.String())
+	}
+	for _, a := range e.accts { // both spellings sign (required signers are matched as strings)
+		e.signers = append(e.signers, strings.ToUpper(a.String()))
+	}
+	mk := func(kind string, n int) []uuid.UUID {
+		var out []uuid.UUID
+		for i := 0; i < n; i++ {
+			u := c14UUID(r)
+			for e.uuidID[kind+string(u[:])] != 0 { // distinct within the kind
+				r.Read(u[:])
+			}
+			e.uuidID[kind+string(u[:])] = int64(i + 1)
+			out = append(out, u)
+		}
+		return out
+	}
+	e.scopeU, e.sessU, e.sspecU, e.cspecU = mk("scope", 3), mk("sess", 3), mk("sspec", 2), mk("cspec", 3)
+	if r.Intn(3) == 0 { // scopes whose UUIDs share a long prefix
+		copy(e.scopeU[1][:15], e.scopeU[0][:15])
+		e.scopeU[1][15] = e.scopeU[0][15] ^ byte(1+r.Intn(255))
+		if e.scopeU[2] == e.scopeU[1] {
+			e.scopeU[2][0] ^= 0x55
+		}
+		e.uuidID = rebuildIDs(e)
+	}
+	e.names = []string{"recordone", "Record Two", "r3"}
+	if r.Intn(3) == 0 { // names outside ASCII: the key is the hash of the lower-cased, trimmed UTF-8 name
+		e.names = []string{"Ärger \u00a0", "\u3000ΣΟΦΊΑ", "запись-3"}
+	}
+	for i, n := range e.names {
+		e.nameID[n] = int64(i + 1)
+	}
+	return e
+}
+
+// prepare creates auth accounts for accounts 1..3 (sequence 1: an existing account with sequence 0
+// and no public key is taken for a smart contract by the signer checks); account 4 has none.
+func (e *c14Env) prepare(ctx sdk.Context) {
+	for i, a := range e.accts {
+		if i < 3 {
+			acc := e.app.AccountKeeper.NewAccountWithAddress(ctx, a)
+			_ = acc.SetSequence(1)
+			e.app.AccountKeeper.SetAccount(ctx, acc)
+		}
+		e.hasAcct[int64(i+1)] = e.app.AccountKeeper.HasAccount(ctx, a)
+	}
+}
+
+// play runs one history: [next] yields the operations; every step is observed.
+func (e *c14Env) play(w *CaseWriter, ctx sdk.Context, tag string, raw bool, next func(step int, last c14Obs) (c14Op, bool)) {
+	last := e.observe(ctx, true)
+	var steps, kinds, errs, opTerms []string
+	accepted, nSteps := 0, 0
+	shape := map[string]bool{}
+	for s := 0; ; s++ {
+		op, more := next(s, last)
+		if !more {
+			break
+		}
+		nSteps++
+		cctx, write := ctx.CacheContext()
+		err := try(func() error { return op.run(cctx) })
+		if err == nil {
+			write()
+			accepted++
+			w.Count("op_ok_" + op.kind)
+		} else {
+			w.Count("op_rejected_" + op.kind)
+			msg := err.Error()
+			if len(msg) > 160 {
+				msg = msg[:160]
+			}
+			errs = append(errs, fmt.Sprintf("%d:%s", s, msg))
+		}
+		w.Count("ops")
+		cur := e.observe(ctx, err == nil)
+		// interesting shapes
+		if err == nil && (op.kind == "KRemoveScope" || op.kind == "MDeleteScope") {
+			var id int64
+			fmt.Sscanf(op.term[strings.Index(op.term, " ")+1:], "%d", &id)
+			for _, se := range last.sess {
+				if se.scope == id && !has(last.recs, func(x c14Rec) bool { return x.scope == id && x.sess == se.uuid }) {
+					shape["delete_scope_with_recordless_session"] = true
+				}
+			}
+			if has(last.recs, func(x c14Rec) bool { return x.scope == id }) {
+				shape["delete_scope_with_records"] = true
+			}
+			if has(last.navs, func(x c14Nav) bool { return x.scope == id }) {
+				shape["delete_scope_with_navs"] = true
+				if op.kind == "KRemoveScope" && has(cur.navs, func(x c14Nav) bool { return x.scope == id }) {
+					shape["keeper_remove_scope_kept_navs"] = true
+				}
+			}
+			if len(last.locs) > 0 {
+				shape["delete_scope_while_locators_exist"] = true
+			}
+		}
+		if err == nil && len(cur.sess) < len(last.sess) && (op.kind == "KRemoveRecord" || op.kind == "MDeleteRecord") {
+			shape["last_record_removed_session"] = true
+		}
+		if err == nil && op.kind == "MWriteRecord" && len(cur.recs) == len(last.recs) {
+			for i := range cur.recs {
+				if cur.recs[i].sess != last.recs[i].sess {
+					shape["record_moved"] = true
+					if len(cur.sess) < len(last.sess) {
+						shape["record_moved_emptied_session"] = true
+					}
+				}
+			}
+		}
+		for _, d := range c14Danglers(cur) {
+			shape["state_"+d] = true
+		}
+		steps = append(steps, fmt.Sprintf("(%s, %s)", op.term, cur.coq()))
+		opTerms = append(opTerms, op.term)
+		kinds = append(kinds, op.kind)
+		last = cur
+	}
+	for k := range shape {
+		w.Count("history_" + k)
+	}
+	w.CountN("ops_accepted", int64(accepted))
+	term := fmt.Sprintf("History %s %s %s %s %s", c14ZL([]int64{1, 2, 3, 4}), c14ZL([]int64{1, 2, 3}), c14ZL([]int64{1, 2}), c14ZL([]int64{1, 2, 3}), coqList(steps))
+	w.Add(term, map[string]any{"kind": "history", "tag": tag, "raw": raw, "ops": kinds, "accepted": accepted, "errors": errs})
+	w.Count("histories")
+	if accepted*3 >= nSteps {
+		w.Nontrivial(fmt.Sprintf("h:%s:%s", tag, strings.Join(opTerms, ",")))
+	}
+	// the complete key set of the store after the history, with the bytes behind every interned id
+	u16 := func(l []uuid.UUID) [][]byte {
+		var out [][]byte
+		for i := range l {
+			out = append(out, append([]byte{}, l[i][:]...))
+		}
+		return out
+	}
+	var names, accts, denoms [][]byte
+	for _, n := range e.names {
+		names = append(names, c14Hash16(n))
+	}
+	for _, a := range e.accts {
+		accts = append(accts, a)
+	}
+	for _, d := range e.denoms {
+		denoms = append(denoms, []byte(d))
+	}
+	keys := e.storeKeys(ctx)
+	w.Add(fmt.Sprintf("Keys %s %s %s %s %s %s %s %s %s %s", coqBool(!raw), c14BL(u16(e.scopeU)), c14BL(u16(e.sessU)), c14BL(u16(e.sspecU)), c14BL(u16(e.cspecU)),
+		c14BL(names), c14BL(accts), c14BL(denoms), coqList(opTerms), coqList(keys)),
+		map[string]any{"kind": "keys", "tag": tag, "raw": raw, "ops": kinds, "keys": len(keys)})
+	w.Count("keys_cases")
+	w.CountN("store_keys", int64(len(keys)))
+	if len(keys) >= 10 {
+		w.Nontrivial("k:" + tag)
 	}
 }
 
 func c14HistoryStream(t *testing.T, w *CaseWriter, r *rand.Rand) {
 	app, base := newApp(t)
+	// the witnesses of Properties/C14.v on the real code
+	{
+		e := c14NewEnv(app, r)
+		ws := e.witnesses()
+		var names []string
+		for n := range ws {
+			names = append(names, n)
+		}
+		sort.Strings(names)
+		for _, n := range names {
+			ops := ws[n]
+			ctx, _ := base.CacheContext()
+			e.prepare(ctx)
+			e.play(w, ctx, "witness:"+n, false, func(s int, _ c14Obs) (c14Op, bool) {
+				if s >= len(ops) {
+					return c14Op{}, false
+				}
+				return ops[s], true
+			})
+			w.Count("histories_witness")
+		}
+	}
 	nHist := scale(140, 2500)
 	for hI := 0; hI < nHist; hI++ {
-		e := &c14Env{app: app, acctID: map[string]int64{}, uuidID: map[string]int64{}, nameID: map[string]int64{}, denoms: []string{mdtypes.UsdDenom, "navb", "navc"}}
-		for i := 0; i < 4; i++ {
-			a := addrN(1400 + i)
-			e.accts = append(e.accts, a)
-			e.acctID[a.String()] = int64(i + 1)
-			e.acctID[strings.ToUpper(a.String())] = int64(100 + i + 1)
-			e.signers = append(e.signers, a.String())
-		}
-		for _, a := range e.accts { // both spellings sign (required signers are matched as strings)
-			e.signers = append(e.signers, strings.ToUpper(a.String()))
-		}
-		mk := func(kind string, n int) []uuid.UUID {
-			var out []uuid.UUID
-			for i := 0; i < n; i++ {
-				u := c14UUID(r)
-				for e.uuidID[kind+string(u[:])] != 0 { // distinct within the kind
-					r.Read(u[:])
-				}
-				e.uuidID[kind+string(u[:])] = int64(i + 1)
-				out = append(out, u)
-			}
-			return out
-		}
-		e.scopeU, e.sessU, e.sspecU, e.cspecU = mk("scope", 3), mk("sess", 3), mk("sspec", 2), mk("cspec", 3)
-		if r.Intn(3) == 0 { // scopes whose UUIDs share a long prefix
-			copy(e.scopeU[1][:15], e.scopeU[0][:15])
-			e.scopeU[1][15] = e.scopeU[0][15] ^ byte(1+r.Intn(255))
-			if e.scopeU[2] == e.scopeU[1] {
-				e.scopeU[2][0] ^= 0x55
-			}
-			e.uuidID = rebuildIDs(e)
-		}
-		e.names = []string{"recordone", "Record Two", "r3"}
-		for i, n := range e.names {
-			e.nameID[n] = int64(i + 1)
-		}
+		e := c14NewEnv(app, r)
 		ctx, _ := base.CacheContext()
-		// the accounts are deliberately NOT created: an existing account without public key and
-		// sequence 0 is taken for a smart contract by the signer checks
+		e.prepare(ctx)
 		raw := r.Intn(10) < 3
+		msgOnly := !raw && r.Intn(2) == 0
 		nSteps := 18 + r.Intn(scale(36, 50))
-		last := e.observe(ctx, true)
-		var steps []string
-		var kinds []string
-		var errs []string
-		accepted := 0
-		shape := map[string]bool{}
-		for s := 0; s < nSteps; s++ {
-			op := e.genOp(r, last, s, raw)
-			cctx, write := ctx.CacheContext()
-			err := try(func() error { return op.run(cctx) })
-			if err == nil {
-				write()
-				accepted++
-				w.Count("op_ok_" + op.kind)
-			} else {
-				w.Count("op_rejected_" + op.kind)
-				msg := err.Error()
-				if len(msg) > 160 {
-					msg = msg[:160]
-				}
-				errs = append(errs, fmt.Sprintf("%d:%s", s, msg))
+		e.play(w, ctx, fmt.Sprintf("%d", hI), raw, func(s int, last c14Obs) (c14Op, bool) {
+			if s >= nSteps {
+				return c14Op{}, false
 			}
-			w.Count("ops")
-			cur := e.observe(ctx, err == nil)
-			// interesting shapes
-			if err == nil && (op.kind == "KRemoveScope" || op.kind == "MDeleteScope") {
-				var id int64
-				fmt.Sscanf(op.term[strings.Index(op.term, " ")+1:], "%d", &id)
-				for _, se := range last.sess {
-					if se.scope == id && !has(last.recs, func(x c14Rec) bool { return x.scope == id && x.sess == se.uuid }) {
-						shape["delete_scope_with_recordless_session"] = true
-					}
-				}
-				if has(last.recs, func(x c14Rec) bool { return x.scope == id }) {
-					shape["delete_scope_with_records"] = true
-				}
-			}
-			if err == nil && len(cur.sess) < len(last.sess) && (op.kind == "KRemoveRecord" || op.kind == "MDeleteRecord") {
-				shape["last_record_removed_session"] = true
-			}
-			if err == nil && op.kind == "MWriteRecord" && len(cur.recs) == len(last.recs) {
-				for i := range cur.recs {
-					if cur.recs[i].sess != last.recs[i].sess {
-						shape["record_moved"] = true
-						if len(cur.sess) < len(last.sess) {
-							shape["record_moved_emptied_session"] = true
-						}
-					}
-				}
-			}
-			steps = append(steps, fmt.Sprintf("(%s, %s)", op.term, cur.coq()))
-			kinds = append(kinds, op.kind)
-			last = cur
-		}
-		for k := range shape {
-			w.Count("history_" + k)
-		}
+			return e.genOp(r, last, s, raw, msgOnly), true
+		})
 		if raw {
 			w.Count("histories_raw")
 		} else {
 			w.Count("histories_guarded")
 		}
-		w.CountN("ops_accepted", int64(accepted))
-		term := fmt.Sprintf("History %s %s %s %s %s", c14ZL([]int64{1, 2, 3, 4}), c14ZL([]int64{1, 2, 3}), c14ZL([]int64{1, 2}), c14ZL([]int64{1, 2, 3}), coqList(steps))
-		w.Add(term, map[string]any{"kind": "history", "raw": raw, "ops": kinds, "accepted": accepted, "errors": errs})
-		w.Count("histories")
-		if accepted*3 >= nSteps {
-			w.Nontrivial(fmt.Sprintf("h:%d:%s", hI, strings.Join(kinds, ",")))
+		if msgOnly {
+			w.Count("histories_messages_only")
 		}
 	}
 }
@@ -1363,6 +1985,7 @@ func TestC14(t *testing.T) {
 	w := NewCaseWriter("C14", "PV.Corr.C14", "check_all", 200)
 	r := newRand("C14")
 	c14AddressStream(t, w, r)
+	c14NameStream(t, w, r)
 	c14HistoryStream(t, w, r)
 	w.Flush(t)
 }
